@@ -405,6 +405,9 @@ func (e *Engine) invoke(fr *Frame, st *State, m *types.Func, recv T, args []Val,
 // Contracts at call sites
 
 func (e *Engine) clauseFunc(c *Contract, cl *Clause) *ssa.Function {
+	if cl.Broken != "" {
+		e.unsupported("the contract of %s no longer applies to the code: %s", c.Key, cl.Broken)
+	}
 	g := e.P.GenFunc(c, cl)
 	if g == nil {
 		e.unsupported("generated function %s missing (contract %s)", cl.Gen, c.Key)
